@@ -367,7 +367,7 @@ fn features(env: &Env, st: &mut Stats) -> Vec<Failure> {
         Ok(v) => v,
         Err(m) => return vec![Failure::new("features", "harness-variants", m, json!({}))],
     };
-    let n = if env.tier == Tier::Thorough { 120_000 } else { 4000 };
+    let n = if env.tier == Tier::Thorough { 120_000 } else { 16_000 };
     let mut cases: Vec<Value> = vec![];
     for i in 0..n {
         let bytes = seeded_bytes(env.seed, 0xC17_0000 + i as u64, 1200);
